@@ -703,8 +703,18 @@ impl<'g> M<'g> {
                 Ok(Some(p))
             }
             Node::RepOnce(x) => {
+                let at = self.events.len();
+                self.ev(String::new());
                 let (n, p) = self.repeat(x, pos, atom, toks, None, false)?;
-                Ok((n >= 1).then_some(p))
+                if n >= 1 {
+                    if self.rec() && at < self.events.len() {
+                        self.events[at] = format!("*{}", n);
+                    }
+                    Ok(Some(p))
+                } else {
+                    self.events.truncate(at);
+                    Ok(None)
+                }
             }
             Node::RepMin(x, min) => {
                 let (n, p) = self.repeat(x, pos, atom, toks, None, false)?;
